@@ -15,6 +15,19 @@ Deciding monitor M (public boundary):
                with the new component, that string valid, and the components
                re-derived from it (Policy split), or raises ValueError with all
                observables unchanged (M.rollback counts the latter).
+  M.isolation / M.copy / M.fresh   state BETWEEN objects (same histories):
+               every history also builds a sibling object from the same initial
+               string, may copy-construct (Version(v) / BaseVersion(v)) and then
+               assign to the copy or to the original, and constructs new objects
+               from the initial string, from str() of the assigned-to object and
+               from strings met earlier in the history.  Objects that were not
+               assigned to must read exactly as before after every step; a copy
+               must read as the Policy decomposition of the original's string;
+               the newly constructed objects are judged exactly like constructor
+               cases (so a string that was rejected / decomposed correctly
+               earlier in the process must still be).  A per-shard pool of 36
+               initial strings is drawn from again and again, and one long-lived
+               object per pool string is watched across histories.
 Auxiliary monitor K7 (contract on BaseVersion.__setattr__, attached with
 vp.contracts.wrap, normal and exceptional exit): after a normal exit
 full_version == recompose(epoch, upstream_version, debian_revision); after an
@@ -38,13 +51,32 @@ RULE = ('Constructor cases: ALL strings of length <= 4 (quick) / <= 5 (thorough)
         'i.e. it is not a plain alphanumeric/.+~ run.  History cases: a valid initial version followed by <= 6 '
         'assignments of valid and invalid values (incl. None, ints, re-splitting values) to epoch / upstream_version / '
         'debian_revision / debian_version / full_version; non-trivial when the history contains at least one '
-        'assignment that succeeded and one that raised (rollback exercised on a live object).')
+        'assignment that succeeded and one that raised (rollback exercised on a live object).  '
+        'State between objects: 55% of the histories start from a per-shard POOL of 36 valid strings (12 ordinary, 12 with '
+        'a colon inside the upstream version, 12 with a hyphen inside it), so every pool string is constructed hundreds of '
+        'times in one process before and after objects built from it were assigned to, and one long-lived object per pool '
+        'string is compared with its snapshot in every later history on that string; every history builds a never-'
+        'assigned-to sibling from the same initial string; 45% contain a copy construction Version(v)/BaseVersion(v) after '
+        'which either the copy or the original is assigned to and the other one is watched; every history ends with (20% '
+        'also contain in the middle) a "fresh" step that constructs new objects from the initial string, from str() of '
+        'the assigned-to object and from up to 3 strings met earlier in the history (accepted results, rejected '
+        'recompositions) and judges them like constructor cases (in 70% of the middle steps the new object takes over as '
+        'the assigned-to object and the old one is watched).  Component removal: 30% of the histories start from a '
+        'version whose upstream version contains a colon (with epoch) and/or a hyphen (with revision), the text before '
+        'the first colon being all-digit or not, and are made of epoch=None / debian_revision=None / debian_version=None '
+        '/ revision="" assignments interleaved with re-adding assignments.  One eighth of the histories run before the '
+        'constructor enumeration, the rest after it.')
 ASSUMPTIONS = [
     'vp.models.dpkgver.classify/split is the reference for Debian Policy 5.6.12 syntax (cross-checked against the dpkg binary on a sample in the thorough tier); the Policy "should start with a digit" recommendation is not demanded',
     'strings whose last-hyphen split leaves an empty side ("1-", "-1", "0:-1") are UNSPECIFIED: neither acceptance nor rejection nor their decomposition is judged',
     'recomposition = [epoch ":"] upstream ["-" revision] with the epoch present iff it is not None (so epoch="" recomposes to ":..." which is invalid); a revision of "" may recompose either without a hyphen or with a trailing hyphen (both outcomes tolerated)',
     'an assignment whose recomposition is valid is allowed to raise ValueError (the statement is an either/or); a successful assignment need not read back equal (revision="1-2" legitimately re-splits)',
     'upstream_version=None and values that are neither str nor int are API misuse and are not generated',
+    'objects that are not assigned to are compared with their OWN earlier observables (str, full_version, epoch, upstream_version, debian_revision, debian_version); equality, ordering and hashing of version objects are C03 and are not looked at here',
+    'a copy construction is only performed (and a freshly constructed object only takes over as the assigned-to object) when the current string is a MUST-ACCEPT string; from an UNSPECIFIED current string ("1.0-") nothing is demanded of a copy, and a fresh construction from it is judged like any unspecified constructor case (only a non-ValueError exception counts)',
+    'fresh constructions inside a history are reported under history-dependent-construction/<constructor key>: the same string was pushed through the same library earlier in the same history (as the initial string, as an accepted assignment result whose decomposition was verified, or as a recomposition the library rejected), so a different outcome now is dependence on process history, whatever the constructor does in isolation',
+    'witnesses under other-object-changed/*, history-dependent-construction/*, copy-differs-from-original, repeated-construction-differs are shrunk greedily (steps are dropped while the mechanism persists) and, for pool histories, carry a "prelude" (the last 4 pool histories of this shard that started from or ended on the same pool string), which --replay plays unjudged first; a violation under an ORDINARY key that is only a consequence of state left behind by earlier cases of the same process may not reproduce from its own replay file (the leak keys of the same run do)',
+    'epoch=None is counted as "removal with colon in upstream" only when the model epoch is set and the model upstream contains ":"; debian_revision/debian_version = None or "" as "removal with hyphen in upstream" only when the model revision is set and the model upstream contains "-"; the outcome is judged by the ordinary assignment oracle (valid recomposition with re-derived components, or ValueError + unchanged)',
     'Version is NativeVersion (python-apt absent); BaseVersion is exercised as well; the class exercised is recorded in coverage.version_class',
 ]
 ANCHORS = ['debian.debian_support:BaseVersion._set_full_version',
@@ -65,14 +97,38 @@ RANDOM_STRINGS = {'quick': 80000, 'thorough': 4000000}
 HISTORIES = {'quick': 20000, 'thorough': 1200000}
 DPKG_SAMPLE = 300
 
-FLOORS = {'quick': {'nontrivial': 70000,
-                    'monitors': {'M.construct': 70000, 'M.assign': 30000, 'M.rollback': 10000, 'K7': 150000, 'K7.raise': 20000},
-                    'counters': {'construct:accept/accepted': 17000, 'construct:reject/rejected': 44000,
-                                 'assign:ok': 20000, 'assign:raised': 10000}},
+# about 50% of what the unchanged tree measures (minimum over VERIF_SEED 0..3); the copy:/isolation:/fresh:/remove:/hist: floors
+# make a run that never exercises state between objects or component removals INCONCLUSIVE rather than held
+FLOORS = {'quick': {'nontrivial': 80000,
+                    'monitors': {'M.construct': 83000, 'M.assign': 31000, 'M.rollback': 12000, 'K7': 175000, 'K7.raise': 22000,
+                                 'M.copy': 4300, 'M.fresh': 40000, 'M.isolation': 107000},
+                    'counters': {'construct:accept/accepted': 17000, 'construct:reject/rejected': 63000,
+                                 'assign:ok': 19500, 'assign:raised': 12000,
+                                 'hist:init-from-pool': 5400, 'copy:mutate-copy': 2100, 'copy:mutate-original': 2100,
+                                 'isolation:copy-of-assigned-object': 2500, 'isolation:original-of-assigned-copy': 2500,
+                                 'isolation:sibling-from-same-string': 17000,
+                                 'isolation:long-lived-object-from-same-string': 9600,
+                                 'fresh:initial-string-after-change': 9900, 'fresh:current-string': 9300,
+                                 'fresh:earlier-accepted-string': 7200, 'fresh:earlier-rejected-string': 11000,
+                                 'remove:epoch-with-colon-in-upstream:ok': 340,
+                                 'remove:epoch-with-colon-in-upstream:raised': 1000,
+                                 'remove:revision-with-hyphen-in-upstream:ok': 1000,
+                                 'remove:revision-with-hyphen-in-upstream:raised': 170}},
           'thorough': {'nontrivial': 2000000,
-                       'monitors': {'M.construct': 2300000, 'M.assign': 1800000, 'M.rollback': 750000, 'K7': 6500000, 'K7.raise': 1400000},
+                       'monitors': {'M.construct': 2300000, 'M.assign': 1800000, 'M.rollback': 700000, 'K7': 9000000, 'K7.raise': 1300000,
+                                    'M.copy': 250000, 'M.fresh': 2400000, 'M.isolation': 6400000},
                        'counters': {'construct:accept/accepted': 700000, 'construct:reject/rejected': 1300000,
-                                    'assign:ok': 1000000, 'assign:raised': 750000}}}
+                                    'assign:ok': 1100000, 'assign:raised': 700000,
+                                    'hist:init-from-pool': 320000, 'copy:mutate-copy': 130000, 'copy:mutate-original': 130000,
+                                    'isolation:copy-of-assigned-object': 150000, 'isolation:original-of-assigned-copy': 150000,
+                                    'isolation:sibling-from-same-string': 1000000,
+                                    'isolation:long-lived-object-from-same-string': 570000,
+                                    'fresh:initial-string-after-change': 600000, 'fresh:current-string': 560000,
+                                    'fresh:earlier-accepted-string': 430000, 'fresh:earlier-rejected-string': 670000,
+                                    'remove:epoch-with-colon-in-upstream:ok': 20000,
+                                    'remove:epoch-with-colon-in-upstream:raised': 55000,
+                                    'remove:revision-with-hyphen-in-upstream:ok': 50000,
+                                    'remove:revision-with-hyphen-in-upstream:raised': 9000}}}
 
 ATTRS = ('full_version', 'epoch', 'upstream_version', 'debian_revision', 'debian_version')
 UNSET = '<unset>'
@@ -314,22 +370,100 @@ REVISION_VALUES = [None, None, None, '1', '0', '2', '1~bpo10+1', '1.2', 'a', '~'
                    'a:b', ':', '1:', ':1', '1\n', '\n', ' ', '1 ', '_', '1_', 'é', '٣', '²']
 
 
-def gen_history(r):
-    init = gen_valid(r, maxparts=3)
-    ops = []
-    for _ in range(r.randint(1, 6)):
-        attr = r.choice(['epoch', 'epoch', 'upstream_version', 'upstream_version', 'debian_revision',
-                         'debian_revision', 'debian_version', 'full_version'])
-        if attr == 'epoch':
-            val = r.choice(EPOCH_VALUES)
-        elif attr == 'upstream_version':
-            val = r.choice(UPSTREAM_VALUES) if r.random() < 0.7 else ''.join(r.choice(UP_ATOMS) for _ in range(r.randint(1, 3)))
-        elif attr in ('debian_revision', 'debian_version'):
-            val = r.choice(REVISION_VALUES) if r.random() < 0.75 else ''.join(r.choice(REV_ATOMS) for _ in range(r.randint(1, 2)))
-        else:
-            val = gen_string(r) if r.random() < 0.8 else r.choice(['', '1', 12, '1.0-1', '1:1.0-1', ' ', '\n'])
-        ops.append([attr, val])
-    return {'kind': 'hist', 'init': init, 'ops': ops, 'cls': 'BaseVersion' if r.random() < 0.2 else 'Version'}
+# -- state between objects (pool, copies, fresh constructions) and component removals ---------------------------------
+# text before the FIRST colon of an upstream version that itself contains a colon: only the all-digit heads leave a valid
+# string (which re-splits) when the epoch is removed; with every other head the recomposition is not a version
+COLON_HEADS = ['a', '1a', '', '1.0', '~', '+', 'rc', '1.', 'a1', '1', '2', '007', '10', '0']
+HYPHEN_TAILS = ['1', '2', 'a', '1.0', '~rc1', '', '0', '+b1']
+POOL_SIZE = 36                  # per shard: 12 ordinary, 12 colon-in-upstream, 12 hyphen-in-upstream versions
+POOL_SHARE = 0.55               # share of histories whose initial string comes from the pool
+REMOVAL_SHARE = 0.30            # share of histories built around epoch / revision removal
+RECENT_PER_STRING = 4           # earlier pool histories kept per pool string (become the prelude of a witness)
+FRESH_STRINGS = 5               # strings re-constructed by one '@fresh' step (initial, current, earlier ones)
+
+
+def gen_removal_init(r, kind=None):
+    """A valid version whose upstream version is valid only WITH its epoch (contains a colon) and/or contains a hyphen
+    (valid only because a revision follows)."""
+    while True:
+        k = kind or r.choice(['colon', 'colon', 'hyphen', 'hyphen', 'both'])
+        ep = r.choice(['0', '1', '2', '12', '007']) if (k != 'hyphen' or r.random() < 0.4) else None
+        rev = ''.join(r.choice(REV_ATOMS) for _ in range(r.choice([1, 1, 2]))) if (k != 'colon' or r.random() < 0.4) else None
+        up = ''.join(r.choice(UP_ATOMS) for _ in range(r.randint(1, 2)))
+        if k in ('hyphen', 'both'):
+            tail = r.choice(HYPHEN_TAILS)
+            if ep is not None and r.random() < 0.25:
+                tail = r.choice(['a:b', '1:1', ':', '1:'])          # revision removal leaves a colon after the last hyphen
+            up = (up if r.random() < 0.85 else '') + '-' + tail
+            if r.random() < 0.2:
+                up += '-' + r.choice(HYPHEN_TAILS)
+        if k in ('colon', 'both'):
+            up = r.choice(COLON_HEADS) + ':' + up
+            if r.random() < 0.2:
+                up += ':' + r.choice(UP_ATOMS)
+        s = recompose(ep, up, rev)
+        if dpkgver.classify(s) == 'accept' and dpkgver.split(s) == (ep, up, rev):
+            return s
+
+
+def make_pool(r):
+    pool = []
+    while len(pool) < POOL_SIZE:
+        third = len(pool) * 3 // POOL_SIZE
+        s = gen_valid(r, maxparts=3) if third == 0 else gen_removal_init(r, 'colon' if third == 1 else 'hyphen')
+        if s not in pool:
+            pool.append(s)
+    return pool
+
+
+def _random_op(r):
+    attr = r.choice(['epoch', 'epoch', 'upstream_version', 'upstream_version', 'debian_revision',
+                     'debian_revision', 'debian_version', 'full_version'])
+    if attr == 'epoch':
+        val = r.choice(EPOCH_VALUES)
+    elif attr == 'upstream_version':
+        val = r.choice(UPSTREAM_VALUES) if r.random() < 0.7 else ''.join(r.choice(UP_ATOMS) for _ in range(r.randint(1, 3)))
+    elif attr in ('debian_revision', 'debian_version'):
+        val = r.choice(REVISION_VALUES) if r.random() < 0.75 else ''.join(r.choice(REV_ATOMS) for _ in range(r.randint(1, 2)))
+    else:
+        val = gen_string(r) if r.random() < 0.8 else r.choice(['', '1', 12, '1.0-1', '1:1.0-1', ' ', '\n'])
+    return [attr, val]
+
+
+def _removal_op(r):
+    k = r.random()
+    if k < 0.35:
+        return ['epoch', None]
+    if k < 0.65:
+        return [r.choice(['debian_revision', 'debian_revision', 'debian_version']), r.choice([None, None, None, ''])]
+    if k < 0.78:
+        return ['epoch', r.choice(['0', '1', '5', 3])]               # put an epoch (back)
+    if k < 0.88:
+        return [r.choice(['debian_revision', 'debian_version']), r.choice(['1', '0.1', '2~b', 4])]
+    return _random_op(r)
+
+
+def gen_history(r, pool=()):
+    removal = r.random() < REMOVAL_SHARE
+    from_pool = bool(pool) and r.random() < POOL_SHARE
+    if from_pool:
+        init = r.choice(pool[len(pool) // 3:]) if removal else r.choice(pool)
+    else:
+        init = gen_removal_init(r) if removal else gen_valid(r, maxparts=3)
+    ops = [(_removal_op(r) if removal else _random_op(r)) for _ in range(r.randint(1, 4) if removal else r.randint(1, 6))]
+    cls = 'BaseVersion' if r.random() < 0.2 else 'Version'
+    # pseudo-operations (see play_history): a copy construction somewhere in the history, a fresh construction in the
+    # middle (the fresh object sometimes takes over as the assigned-to object), and always a fresh construction at the end
+    if r.random() < 0.45:
+        ops.insert(r.randrange(len(ops)), ['@copy', {'cls': r.choice(['Version', 'Version', 'BaseVersion', cls]),
+                                                     'mutate': r.choice(['copy', 'original'])}])
+    if len(ops) > 1 and r.random() < 0.2:
+        ops.insert(r.randrange(1, len(ops)), ['@fresh', {'adopt': r.random() < 0.7}])
+    ops.append(['@fresh', {'adopt': False}])
+    case = {'kind': 'hist', 'init': init, 'ops': ops, 'cls': cls}
+    if from_pool:
+        case['pool'] = True
+    return case
 
 
 def cases(ctx):
@@ -339,6 +473,16 @@ def cases(ctx):
             'constructor: all %d strings of length <= %d over the 14-symbol alphabet' % (sum(14 ** k for k in range(n + 1)), n))
         ctx.extra['exhaustive_subspaces'].append(
             'constructor: all strings of length %d..%d over "1 a : -"' % SMALL_LEN[ctx.tier])
+    # a slice of the histories runs BEFORE the constructor enumeration (a bounded cache inside the library may be full,
+    # and therefore inert, once several 10^4 distinct strings have been constructed), the rest after it
+    pool = make_pool(ctx.rng('pool'))
+    POOL_SET.clear()
+    POOL_SET.update(pool)
+    ctx.extra['pool_strings_all_shards'] = len(pool)
+    rh = ctx.rng('histories')
+    n_hist = ctx.size(HISTORIES['quick'], HISTORIES['thorough'])
+    for _ in range(n_hist // 8):
+        yield gen_history(rh, pool)
     i = 0
     # the enumeration index is skewed by i // 14 so that a shard does not receive only the strings that end in one
     # particular symbol (14 symbols, 14 thorough shards)
@@ -367,9 +511,8 @@ def cases(ctx):
     r = ctx.rng('strings')
     for _ in range(ctx.size(RANDOM_STRINGS['quick'], RANDOM_STRINGS['thorough'])):
         yield {'kind': 'str', 's': gen_string(r), 'src': 'random'}
-    r = ctx.rng('histories')
-    for _ in range(ctx.size(HISTORIES['quick'], HISTORIES['thorough'])):
-        yield gen_history(r)
+    for _ in range(n_hist - n_hist // 8):
+        yield gen_history(rh, pool)
     if ctx.tier == 'thorough' and ctx.shard == 0 and shutil.which('dpkg'):
         r = ctx.rng('dpkg')
         strings = []
@@ -454,35 +597,184 @@ def check_construct(ctx, s, clsname='Version', count=True):
     return out + k7
 
 
+POOL_SET = set()         # this shard's pool of initial strings (filled by cases())
+SENTINELS = {}           # (class name, pool string) -> object built at the first use of the string, never assigned to
+LAST_FINAL = [None]      # str() of the assigned-to object at the end of the last history played
+RECENT = {}              # pool string -> the last few pool histories that started from it or ended on it
+LEAK_PREFIXES = ('history-dependent-construction/', 'other-object-changed/', 'copy-differs-from-original',
+                 'copy-construction-raises', 'repeated-construction-differs')
+
+
+def _is_pseudo(op):
+    return isinstance(op[0], str) and op[0].startswith('@')
+
+
+def _is_leak_key(key):
+    return key.startswith(LEAK_PREFIXES)
+
+
+def _expected_public(s):
+    """_public() of an object whose string is the valid version `s`."""
+    e, u, r = dpkgver.split(s)
+    return (s, s, e, u, r, r)
+
+
+def _check_watched(ctx, watched, what, step, count, changed):
+    """Objects that were not assigned to must read exactly as they did before."""
+    out = []
+    for label, obj, snap in watched:
+        now = _public(obj)
+        if count:
+            ctx.mon('M.isolation')
+            if changed:
+                ctx.count('isolation:%s' % label)
+        if now != snap:
+            out.append(('other-object-changed/%s' % label,
+                        '%s; the %s (never assigned to since) went (str, full_version, epoch, upstream_version, '
+                        'debian_revision, debian_version) %r -> %r' % (what, label.replace('-', ' '), snap, now), step))
+    return out
+
+
 def play_history(ctx, case, count=True):
-    """Execute one assignment history; returns [(key, msg, step)] (step = index
-    of the op that exposed it, -1 for the initial construction)."""
+    """Execute one history; returns [(key, msg, step)] (step = index of the op
+    that exposed it, -1 for the initial construction).
+
+    ops are [attribute, value] assignments to the *assigned-to object* plus two
+    pseudo-operations:
+      ['@copy', {'cls': C, 'mutate': 'copy'|'original'}]  c = C(obj); c must read as the Policy decomposition of
+            str(obj); afterwards either c or obj is the assigned-to object and the other one is watched;
+      ['@fresh', {'adopt': bool}]  new objects are constructed from the initial string, from str(obj) and from strings
+            seen earlier in the history, and judged like any constructor case; with adopt the object built from str(obj)
+            becomes the assigned-to object and obj is watched.
+    Watched objects (a sibling built from the same initial string, copies / originals, for pool strings a long-lived
+    object kept across histories) are compared with their snapshot after every step."""
     from debian import debian_support as ds
-    cls = getattr(ds, case.get('cls', 'Version'))
+    clsname = case.get('cls', 'Version')
+    cls = getattr(ds, clsname)
     init, ops = case['init'], case['ops']
     out = []
     if dpkgver.classify(init) != 'accept':
         # only reachable through a hand-written replay file
         return [('harness/bad-history', 'initial version %r is not a valid version' % (init,), -1)]
-    pre = check_construct(ctx, init, case.get('cls', 'Version'), count=False)
+    pre = check_construct(ctx, init, clsname, count=False)
     if pre:
+        if case.get('pool') and (clsname, init) in SENTINELS:
+            # this very string was constructed and judged correct earlier in this process
+            return [('history-dependent-construction/' + k, 'pool string constructed again: ' + m, -1) for (k, m) in pre]
         return [(k, m, -1) for (k, m) in pre]
+    exp = _expected_public(init)
+    watched = []
+    if case.get('pool'):
+        if (clsname, init) not in SENTINELS:
+            SENTINELS[(clsname, init)] = cls(init)
+        watched.append(('long-lived-object-from-same-string', SENTINELS[(clsname, init)], exp))
+        if count:
+            ctx.count('hist:init-from-pool')
+    w = cls(init)
     v = cls(init)
     _drain_k7()
+    if _public(w) != exp or _public(v) != exp:
+        return [('repeated-construction-differs', '%s(%r) constructed three times in a row: observables %r and %r, '
+                 'Policy decomposition %r' % (clsname, init, _public(w), _public(v), exp), -1)]
+    watched.append(('sibling-from-same-string', w, exp))
+    leak = _check_watched(ctx, watched, 'constructing %s(%r) again' % (clsname, init), -1, count, False)
+    if leak:
+        return leak
     model = dpkgver.split(init)
+    seen = []                # strings met in this history (accepted results, rejected recompositions / values)
     n_ok = n_raised = 0
-    for step, (attr, value) in enumerate(ops):
+    for step, op in enumerate(ops):
+        attr = op[0]
+        value = op[1] if len(op) > 1 else None
+        if attr == '@copy':
+            opt = value or {}
+            cur = _public(v)
+            if dpkgver.classify(cur[0]) != 'accept':
+                if count:
+                    ctx.count('copy:skipped/current-string-unspecified')
+                continue
+            ccls = opt.get('cls', clsname)
+            try:
+                c = getattr(ds, ccls)(v)
+            except Exception as exc:
+                return out + [('copy-construction-raises', '%s(<%s %r>) raised %s: %s'
+                               % (ccls, clsname, cur[0], type(exc).__name__, exc), step)]
+            k7 = _drain_k7()
+            if count:
+                ctx.mon('M.copy')
+                ctx.count('copy:mutate-%s' % ('original' if opt.get('mutate') == 'original' else 'copy'))
+            expc = _expected_public(cur[0])
+            if _public(c) != expc:
+                return out + [('copy-differs-from-original', '%s(<%s %r>): the copy reads (str, full_version, epoch, '
+                               'upstream_version, debian_revision, debian_version)=%r, Policy decomposition of the '
+                               'original\'s string is %r' % (ccls, clsname, cur[0], _public(c), expc), step)]
+            if _public(v) != cur:
+                return out + [('other-object-changed/original-by-copy-construction', '%s(<%s %r>) changed its argument: '
+                               '%r -> %r' % (ccls, clsname, cur[0], cur, _public(v)), step)]
+            out.extend((k, m, step) for (k, m) in k7)
+            leak = _check_watched(ctx, watched, 'copy-constructing %s(<%s %r>)' % (ccls, clsname, cur[0]), step, count, False)
+            if leak or k7:
+                return out + leak
+            if opt.get('mutate') == 'original':
+                watched.append(('copy-of-assigned-object', c, expc))
+            else:
+                watched.append(('original-of-assigned-copy', v, cur))
+                v = c
+            continue
+        if attr == '@fresh':
+            opt = value or {}
+            cur = _public(v)
+            strings = [init]
+            for s in [cur[0]] + seen[::-1]:
+                if s not in strings and len(strings) < FRESH_STRINGS:
+                    strings.append(s)
+            for s in strings:
+                verdict = dpkgver.classify(s)
+                if count:
+                    ctx.mon('M.fresh')
+                    ctx.count('fresh:%s' % ('initial-string' + ('-after-change' if n_ok else '') if s == init else
+                                            'current-string' if s == cur[0] else 'earlier-%sed-string' % verdict
+                                            if verdict != 'unspecified' else 'earlier-unspecified-string'))
+                for k, m in check_construct(ctx, s, clsname, count=False):
+                    out.append(('history-dependent-construction/' + k,
+                                'after %d assignment(s) (%d succeeded) on objects built from %r: %s' % (n_ok + n_raised, n_ok, init, m),
+                                step))
+            if out:
+                return out
+            if _public(v) != cur:
+                return out + [('other-object-changed/assigned-object-by-later-construction',
+                               'constructing %s from %r changed an existing object: %r -> %r'
+                               % (clsname, strings, cur, _public(v)), step)]
+            leak = _check_watched(ctx, watched, 'constructing %s from %r' % (clsname, strings), step, count, False)
+            if leak:
+                return out + leak
+            if opt.get('adopt') and dpkgver.classify(cur[0]) == 'accept':
+                n = cls(cur[0])
+                _drain_k7()
+                if _public(n) != _expected_public(cur[0]):
+                    return out + [('repeated-construction-differs', '%s(%r) constructed again: observables %r, Policy '
+                                   'decomposition %r' % (clsname, cur[0], _public(n), _expected_public(cur[0])), step)]
+                watched.append(('object-whose-string-was-constructed-again', v, cur))
+                v = n
+                if count:
+                    ctx.count('fresh:adopted')
+            continue
         before = _public(v)
         e, u, r = model
         sval = None if value is None else str(value)
+        removal = None
         if attr == 'full_version':
             cands = [str(value)]
         else:
             if attr == 'epoch':
+                if sval is None and e is not None and ':' in u:
+                    removal = 'epoch-with-colon-in-upstream'
                 e = sval
             elif attr == 'upstream_version':
                 u = sval
             else:
+                if not sval and r is not None and '-' in u:
+                    removal = 'revision-with-hyphen-in-upstream'
                 r = sval
             if u is None:
                 return out + [('harness/bad-history', 'upstream_version=None is API misuse (not generated)', step)]
@@ -497,7 +789,7 @@ def play_history(ctx, case, count=True):
             raised = exc
         except Exception as exc:
             out.append(('assignment-raises-non-valueerror', '%r on %r: %s=%r raised %s: %s'
-                        % (case.get('cls', 'Version'), before[0], attr, value, type(exc).__name__, exc), step))
+                        % (clsname, before[0], attr, value, type(exc).__name__, exc), step))
             return out
         k7 = _drain_k7()
         after = _public(v)
@@ -505,12 +797,19 @@ def play_history(ctx, case, count=True):
             ctx.mon('M.assign')
             ctx.count('assign:%s:%s' % (attr, 'raised' if raised else 'ok'))
             ctx.count('assign:raised' if raised else 'assign:ok')
+            if removal:
+                ctx.count('remove:%s:%s' % (removal, 'raised' if raised else 'ok'))
+        leak = _check_watched(ctx, watched, '%s=%r on another object (%r) %s' % (attr, value, before[0], 'raised ValueError'
+                              if raised else 'succeeded'), step, count, after != before)
+        if leak:
+            return out + leak
         if raised is not None:
             n_raised += 1
             if count:
                 ctx.mon('M.rollback')
                 if any(dpkgver.classify(c) == 'accept' for c in cands):
                     ctx.count('assign:raised-although-recomposition-valid')   # tolerated, informational
+            seen.extend(c for c in cands if dpkgver.classify(c) == 'reject' and c not in seen)
             if after != before:
                 out.append(('failed-assignment-changes-object',
                             '%s=%r on %r raised ValueError but (str, full_version, epoch, upstream_version, '
@@ -544,6 +843,8 @@ def play_history(ctx, case, count=True):
             out.append(('str-differs-from-input', 'after %s=%r on %r: str()=%r full_version=%r'
                         % (attr, value, before[0], sv, full), step))
             return out
+        if sv not in seen:
+            seen.append(sv)
         if verdict == 'accept':
             want = dpkgver.split(sv)
             if (ep, up, rev) != want or rev2 != rev:
@@ -561,37 +862,76 @@ def play_history(ctx, case, count=True):
         out.extend((k, m, step) for (k, m) in k7)
         if k7:
             return out
-    if count and n_ok and n_raised:
-        ctx.nontrivial(case)
+    if count:
+        LAST_FINAL[0] = str(v)
+        if n_ok and n_raised:
+            ctx.nontrivial(case)
     return out
 
 
+def _reproduces(ctx, cand, key):
+    try:
+        return any(k == key for (k, _m, _s) in play_history(ctx, cand, count=False))
+    except Exception:
+        return False
+    finally:
+        _drain_k7()
+
+
 def _shrink_history(ctx, case, key, step):
-    """Smallest re-executable witness: the single failing assignment applied to
-    a fresh object built from the version the object had just before it, if
-    that reproduces the same mechanism; else the history prefix."""
+    """Smallest re-executable witness.  Ordinary keys: the single failing
+    assignment applied to a fresh object built from the version the object had
+    just before it, if that reproduces the same mechanism; else the history
+    prefix.  State-between-objects keys: the history with every step removed
+    whose removal keeps the mechanism (greedy, one step at a time)."""
     prefix = dict(case, ops=case['ops'][:step + 1])
+    if _is_leak_key(key) or (0 <= step < len(case['ops']) and _is_pseudo(case['ops'][step])):
+        ops = list(prefix['ops'])
+        if not _reproduces(ctx, prefix, key):
+            return prefix
+        i = 0
+        while i < len(ops):
+            cand = dict(case, ops=ops[:i] + ops[i + 1:])
+            if _reproduces(ctx, cand, key):
+                ops = cand['ops']
+            else:
+                i += 1
+        return dict(case, ops=ops)
     if step <= 0:
         return prefix
     try:
         from debian import debian_support as ds
         v = getattr(ds, case.get('cls', 'Version'))(case['init'])
-        for attr, value in case['ops'][:step]:
+        for op in case['ops'][:step]:
+            if _is_pseudo(op):
+                continue
             try:
-                setattr(v, attr, value)
+                setattr(v, op[0], op[1])
             except ValueError:
                 pass
         cur = str(v)
         _drain_k7()
         if dpkgver.classify(cur) == 'accept':
             cand = dict(case, init=cur, ops=[case['ops'][step]])
-            if any(k == key for (k, _m, _s) in play_history(ctx, cand, count=False)):
+            cand.pop('pool', None)
+            if _reproduces(ctx, cand, key):
                 return cand
     except Exception:
         pass
     finally:
         _drain_k7()
     return prefix
+
+
+def _remember(case, final):
+    """Pool histories are kept (a few per pool string) so that a witness of state carried over from an earlier history
+    of the same process can be replayed: they become its 'prelude'."""
+    bare = {k: v for k, v in case.items() if k != 'prelude'}
+    for s in {case['init'], final}:
+        if s in POOL_SET:
+            lst = RECENT.setdefault(s, [])
+            lst.append(bare)
+            del lst[:-RECENT_PER_STRING]
 
 
 def run_case(ctx, case):
@@ -608,15 +948,32 @@ def run_case(ctx, case):
                     seen.add(key)
                     ctx.violation(key, msg, small)
     elif kind == 'hist':
+        for p in case.get('prelude', ()):
+            # witness of state carried over between histories: re-create the earlier histories first (not judged)
+            try:
+                play_history(ctx, p, count=False)
+            except Exception:
+                pass
+            _drain_k7()
+        prelude = []
+        if case.get('pool') and not ctx.replay:
+            for p in RECENT.get(case['init'], ()):
+                if p not in prelude:
+                    prelude.append(p)
         seen = set()
         for key, msg, step in play_history(ctx, case):
             if key in seen:
                 continue
             seen.add(key)
-            if step < 0:
+            if step < 0 and not _is_leak_key(key):
                 ctx.violation(key, msg, {'kind': 'str', 's': case['init']})
-            else:
-                ctx.violation(key, msg, _shrink_history(ctx, case, key, step))
+                continue
+            small = _shrink_history(ctx, case, key, step)
+            if _is_leak_key(key) and prelude and 'prelude' not in small:
+                small = dict(small, prelude=prelude)
+            ctx.violation(key, msg, small)
+        if case.get('pool') and not ctx.replay:
+            _remember(case, LAST_FINAL[0])
     elif kind == 'dpkg':
         # cross-check of the REFERENCE CLASSIFIER (not of the library) against the dpkg binary
         for s in case['strings']:
@@ -644,11 +1001,16 @@ LEVEL_TEXT = ('Runtime monitoring: every string of length <= 4 (quick) / <= 5 (t
               'judged by an independent three-way Policy-5.6.12 classifier (accept / reject / unspecified) and the Policy '
               'decomposition; 2e4 / 1.2e6 assignment histories (<= 6 assignments of valid and invalid values incl. None and '
               'ints to all five magic attributes) run against a 3-tuple model, with a contract on BaseVersion.__setattr__ '
-              '(normal and exceptional exit) watching every call.  Held-on-observed, not a proof: reach is the enumerated '
+              '(normal and exceptional exit) watching every call.  The same histories exercise state between objects: a per-shard '
+              'pool of 36 initial strings constructed over and over, a watched sibling / long-lived object per string, copy '
+              'constructions with the copy or the original assigned to, fresh constructions from the initial, current and '
+              'earlier strings after the assignments, and targeted epoch / revision removals from versions whose upstream '
+              'version contains a colon / hyphen.  Held-on-observed, not a proof: reach is the enumerated '
               'sub-spaces plus the sampled strings and histories.')
 LEVEL_NOTE = ('Trusted: CPython, vp.models.dpkgver.classify/split (cross-checked against the dpkg binary on a sample in the '
               'thorough tier), the generators.  Strings whose last-hyphen split has an empty side are not judged; an assignment '
               'that raises although its recomposition is valid is tolerated (counted, not judged).')
 TECHNIQUE = ('runtime monitoring: boundary oracle M (independent Policy syntax classifier + Policy decomposition + 3-tuple '
-             'assignment model) deciding on every observed construction/assignment; auxiliary contract monitor K7 on '
+             'assignment model, snapshot comparison of every object that was not assigned to) deciding on every observed '
+             'construction/assignment; auxiliary contract monitor K7 on '
              'BaseVersion.__setattr__ at normal and exceptional exit')
